@@ -308,6 +308,27 @@ func shapedScenario(g *Gen, which int) Case {
 		cover := obj("cmd", "sysmount", "args", hxs([]string{"tmpfs", VB + "/layers/b0", "tmpfs"}), "flags", float64(0))
 		steps = []interface{}{cmd("mount", "b0"), cover, cmd("umount", "b0"), cmd("probe"),
 			obj("cmd", "sysumount", "args", hxs([]string{VB + "/layers/b0"})), cmd("umount", "b0"), cmd("probe")}
+	case 21, 22:
+		// a direct child whose layerconfig has a line the reader does not understand (error
+		// state) carries a mount made by hand below its build root: it must protect its parent
+		// from rename (21) / rebase (22) — refused, nothing changes (before fix e3cb7aa the probe
+		// skipped layers in the error state before recording their mounts and users) — and
+		// `umount` of the broken child takes the mount away like for any other layer.  The good
+		// child d0 is mounted and unmounted first, so export links exist and d0 is idle.
+		for _, l := range []glayer{{name: "b0", imports: imports}, {name: "d0", base: "b0", imports: imports},
+			{name: "dx", base: "b0", imports: imports}, {name: "other", imports: imports}} {
+			genLayerTree(g, t, l, pf, false)
+		}
+		lc := VB + "/layers/dx/layerconfig"
+		delete(t.ents, lc)
+		t.file(lc, "base b0\n\nimport proc /proc /proc\nfrobnicate this layer\n")
+		byHand := obj("cmd", "sysmount", "args", hxs([]string{"/proc", VB + "/layers/dx/build/proc", "proc"}), "flags", float64(0))
+		last := cmd("rename", "b0", "b9")
+		if which == 22 {
+			last = cmd("rebase", "b0", "other")
+		}
+		steps = []interface{}{cmd("mount", "d0"), umountAll(), byHand, cmd("probe"), last, cmd("probe"),
+			cmd("umount", "dx"), cmd("probe"), last, cmd("probe")}
 	default:
 		// export directory names that differ from the layer's own directory names, explicit
 		// export directives, then rename and remove
@@ -326,7 +347,7 @@ func shapedScenario(g *Gen, which int) Case {
 
 func init() {
 	register("scn-directed", func(g *Gen, tier string, emit func(Case)) {
-		for w := 0; w < 21; w++ {
+		for w := 0; w < 23; w++ {
 			emit(shapedScenario(g, w))
 		}
 		for _, imp := range directedImports {
